@@ -8,7 +8,10 @@
 // five runes of context on both sides — with BOT / EOT cleared on inner edges;
 // the concatenation must equal the whole shaping in gid, cluster, advances and
 // offsets (flag differences ignored, as upstream does); flags uniform within
-// each cluster.
+// each cluster. In addition every safe boundary is cut ON ITS OWN (two pieces):
+// the all-at-once procedure is blind to a missing flag whenever the other
+// cuts isolate the glyphs involved (e.g. "1⁄2⁄3": a slash separated from its
+// digit cannot form a fraction in any piece).
 //
 // Three-valued: whenever the Go reconstruction differs, the same procedure is
 // run on libharfbuzz 6.0.0 for the same input. Only "Go fails its own
@@ -106,6 +109,63 @@ func reconstruct(whole []c05.G, backward bool, lo, hi, flags int, shape shapeFn)
 	return recon, safe, unsafe, true
 }
 
+// safeBoundary reports whether the glyph boundary before index end is one the
+// shaper declares safe, and the text position it corresponds to.
+func safeBoundary(whole []c05.G, backward bool, end int) (t int, safe bool) {
+	if end <= 0 || end >= len(whole) || whole[end].Cluster == whole[end-1].Cluster {
+		return 0, false
+	}
+	if backward {
+		return whole[end-1].Cluster, whole[end-1].Mask&hbref.GlyphFlagUnsafeToBreak == 0
+	}
+	return whole[end].Cluster, whole[end].Mask&hbref.GlyphFlagUnsafeToBreak == 0
+}
+
+// cutAt shapes the two pieces of the item cut at text position t and returns
+// their concatenation in glyph order.
+func cutAt(backward bool, lo, hi, t, flags int, shape shapeFn) ([]c05.G, bool) {
+	first, ok1 := shape(lo, t, flags&^c05.FEot)
+	second, ok2 := shape(t, hi, flags&^c05.FBot)
+	if !ok1 || !ok2 {
+		return nil, false
+	}
+	if backward {
+		return append(append([]c05.G(nil), second...), first...), true
+	}
+	return append(append([]c05.G(nil), first...), second...), true
+}
+
+// singleCuts checks every safe boundary on its own: the item is cut there and
+// only there ("cutting the text at ANY cluster boundary whose adjacent glyph is
+// not flagged unsafe-to-break"). It returns the text position and the
+// reconstruction of the first failing cut (t = -1: all pass) and the number
+// of cuts tried.
+func singleCuts(whole []c05.G, backward bool, lo, hi, flags int, shape shapeFn) (failT int, failRecon []c05.G, tried int) {
+	for end := 1; end < len(whole); end++ {
+		t, safe := safeBoundary(whole, backward, end)
+		if !safe || t <= lo || t >= hi {
+			continue
+		}
+		tried++
+		recon, ok := cutAt(backward, lo, hi, t, flags, shape)
+		if !ok || !c05.Equal(recon, whole) {
+			return t, recon, tried
+		}
+	}
+	return -1, nil, tried
+}
+
+// claimsSafe: does this shaping have a cluster boundary at text position t
+// that is not flagged unsafe-to-break?
+func claimsSafe(whole []c05.G, backward bool, t int) bool {
+	for end := 1; end < len(whole); end++ {
+		if bt, safe := safeBoundary(whole, backward, end); bt == t && whole[end].Cluster != whole[end-1].Cluster {
+			return safe
+		}
+	}
+	return false
+}
+
 // uniformFlags: the unsafe-to-break flag is the same on all glyphs of a cluster.
 func uniformFlags(gs []c05.G) bool {
 	for i := 1; i < len(gs); i++ {
@@ -121,6 +181,7 @@ type verdict struct {
 	cat                   string
 	rs                    c05.Resolved
 	safe, unsafe          int
+	single                int // single cuts tried
 	whole                 []c05.G
 }
 
@@ -164,7 +225,19 @@ func judge(p *c05.Pair, c *c05.Case, sk *c05.Skew) verdict {
 		return v
 	}
 	goUniform := uniformFlags(whole)
-	if rok && c05.Equal(recon, whole) && goUniform {
+	allOK := rok && c05.Equal(recon, whole) && goUniform
+	// every safe boundary cut on its own (when there is a single safe boundary
+	// the all-at-once reconstruction already is that cut)
+	failT := -1
+	var failRecon []c05.G
+	if allOK && safe >= 2 {
+		failT, failRecon, v.single = singleCuts(whole, backward, lo, hi, c.Flags, goShape)
+		if panicked != nil {
+			v.kind, v.class, v.msg = "inconclusive", c05.ClsGoPanic, fmt.Sprintf("%v at %s", panicked, where)
+			return v
+		}
+	}
+	if allOK && failT < 0 {
 		v.kind = "held"
 		return v
 	}
@@ -178,6 +251,30 @@ func judge(p *c05.Pair, c *c05.Case, sk *c05.Skew) verdict {
 	crecon, csafe, _, crok := reconstruct(cwhole, backward, lo, hi, c.Flags, cShape)
 	if !crok || !c05.Equal(crecon, cwhole) {
 		v.kind, v.class = "inconclusive", clsRefFails
+		return v
+	}
+	if allOK && failT >= 0 {
+		// a single cut fails on the Go side. The reference does not show the
+		// failure if it does not claim that boundary safe at all, or if it does
+		// and its own cut there reproduces its whole shaping.
+		refSays := "the reference flags that boundary unsafe-to-break (or has no cluster boundary there)"
+		if claimsSafe(cwhole, backward, failT) {
+			cr, ok := cutAt(backward, lo, hi, failT, c.Flags, cShape)
+			if !ok || !c05.Equal(cr, cwhole) {
+				v.kind, v.class = "inconclusive", clsRefFails
+				return v
+			}
+			refSays = "the reference declares the same boundary safe and passes the same cut"
+		}
+		v.kind = "violated"
+		v.key = fmt.Sprintf("C18/%s#%d/%s/single cut differs", c.Font, c.Index, v.cat)
+		if !c05.Equal(cwhole, whole) {
+			if w := c05.Judge(p, c, sk); w.Kind == "violated" && len(w.Key) > 11 && w.Key[:11] == "C05/defect/" {
+				v.key = "C18/consequence of " + w.Key
+			}
+		}
+		v.msg = fmt.Sprintf("single cut at text position %d differs (cutting at all %d safe boundaries at once reconstructs fine): font=%s#%d text=%s item=[%d,%d) %s (resolved dir=%d); %s\n  whole: %s\n  cut  : %s\n  C    : %s",
+			failT, safe, c.Font, c.Index, c05.U(c.Text), lo, hi, c.Settings(), v.rs.Dir, refSays, fmtFlags(whole), fmtFlags(failRecon), fmtFlags(cwhole))
 		return v
 	}
 	what := "reconstruction differs"
@@ -252,6 +349,19 @@ func fmtFlags(gs []c05.G) string {
 	return out + "]"
 }
 
+func srcClass(src string) string {
+	n := 0
+	for i, ch := range src {
+		if ch == ':' {
+			n++
+			if n == 2 {
+				return src[:i]
+			}
+		}
+	}
+	return src
+}
+
 var dirName = map[int]string{4: "LTR", 5: "RTL", 6: "TTB", 7: "BTT"}
 
 type sample struct {
@@ -269,6 +379,7 @@ func record(run *vrun.Run, p *c05.Pair, c *c05.Case, v *verdict, pairs c05.PairS
 	run.Eval(1)
 	run.Cover("verdict=" + v.kind)
 	run.Cover("cat=" + v.cat)
+	run.Cover("src=" + srcClass(c.Src))
 	run.Cover("dir=" + dirName[v.rs.Dir])
 	run.Cover("fontkind=" + p.Info.Kinds() + "|" + v.cat)
 	run.Cover(fmt.Sprintf("cluster_level=%d", c.CL))
@@ -284,6 +395,7 @@ func record(run *vrun.Run, p *c05.Pair, c *c05.Case, v *verdict, pairs c05.PairS
 	switch v.kind {
 	case "held":
 		run.CoverN("safe-cuts-checked", int64(v.safe))
+		run.CoverN("single-cuts-checked", int64(v.single))
 		run.CoverN("unsafe-boundaries-seen", int64(v.unsafe))
 		if v.safe > 0 && v.unsafe > 0 {
 			run.Nontrivial(c.Hash())
@@ -372,8 +484,47 @@ func Main() {
 		pairs := c05.PairSet{}
 		var cur *c05.Pair
 		curRef := ""
+		nRandom := len(pl.Faces) * pl.Batches
+		sweepPairs := map[string]*c05.Pair{}
+		fracs := c05.FractionTexts()
 		run.WorkerLoop(180, func(i int) {
-			ref := pl.Faces[i/pl.Batches]
+			if i >= nRandom+len(pl.Faces) {
+				// multi-cluster sweep: [letter mark letter letter mark letter] for one (alphabet, mark) item
+				k := i - nRandom - len(pl.Faces)
+				for vv := 0; vv < c05.MultiVariants; vv++ {
+					c, ref := c05.MultiClusterCase(k, vv, pl.SweepFaces)
+					p, ok := sweepPairs[ref]
+					if !ok {
+						if len(sweepPairs) > 12 {
+							for r, q := range sweepPairs {
+								if q != nil {
+									q.Close()
+								}
+								delete(sweepPairs, r)
+							}
+						}
+						p, _ = c05.Open(c.Font, c.Index)
+						if p != nil && !eligible(p) {
+							p.Close()
+							p = nil
+						}
+						sweepPairs[ref] = p
+					}
+					if p == nil {
+						continue
+					}
+					w := judge(p, &c, pl.Skew)
+					record(run, p, &c, &w, pairs, pl.Skew)
+				}
+				return
+			}
+			fraction := i >= nRandom
+			ref := ""
+			if fraction {
+				ref = pl.Faces[i-nRandom]
+			} else {
+				ref = pl.Faces[i/pl.Batches]
+			}
 			if ref != curRef {
 				if cur != nil {
 					cur.Close()
@@ -389,6 +540,22 @@ func Main() {
 				cur = p
 			}
 			if cur == nil {
+				return
+			}
+			if fraction {
+				// fraction chains on faces that have frac, numr and dnom
+				if !c05.HasFractions(cur.Info) {
+					return
+				}
+				for _, text := range fracs {
+					for _, dir := range []int{hbref.DirLTR, hbref.DirRTL} {
+						for cl := 0; cl < 2; cl++ {
+							c := c05.Case{Font: cur.File.ID, Index: cur.Index, Text: text, Len: -1, Dir: dir, CL: cl, Flags: c05.FBot | c05.FEot, Src: "ix:fraction-chains"}
+							w := judge(cur, &c, pl.Skew)
+							record(run, cur, &c, &w, pairs, pl.Skew)
+						}
+					}
+				}
 				return
 			}
 			for k := 0; k < pl.PerTask; k++ {
@@ -425,7 +592,8 @@ func Main() {
 		}
 		p.Close()
 	}
-	pl := &c05.Plan{Faces: faces, Skew: sk, Batches: run.Pick(4, 60), PerTask: run.Pick(75, 75)}
+	pl := &c05.Plan{Faces: faces, Skew: sk, Batches: run.Pick(4, 60), PerTask: run.Pick(75, 75),
+		PairItems: c05.PairSweepItems(), SweepFaces: c05.PairSweepFaces(faces)}
 	if err := c05.SavePlan(planPath, pl); err != nil {
 		fmt.Fprintln(os.Stderr, "plan:", err)
 		os.Exit(3)
@@ -435,10 +603,19 @@ func Main() {
 	run.Extra("faces_skipped_morx_or_no_layout", skipped)
 	run.Extra("reference_version", sk.HBVersion)
 	n := len(faces) * pl.Batches
-	run.Extra("cases_planned", n*pl.PerTask)
+	run.Extra("random_cases_planned", n*pl.PerTask)
+	run.Extra("multi_cluster_sweep_cases_planned", pl.PairItems*c05.MultiVariants)
+	nRandom := n
+	n += len(faces) + pl.PairItems
 	run.RunChildren(vrun.ChildCfg{N: n, Chunk: run.Pick(64, 300), StallWall: 600 * time.Second}, func(d vrun.Death) {
 		run.Inconclusive("go side died in a worker (C01): " + d.Kind)
-		run.Note("task %d (face %s): %s", d.Case, faces[d.Case/pl.Batches], vrun.FatalHead(d.Detail))
+		what := "multi-cluster sweep"
+		if d.Case < nRandom {
+			what = "face " + faces[d.Case/pl.Batches]
+		} else if d.Case < nRandom+len(faces) {
+			what = "fraction chains on face " + faces[d.Case-nRandom]
+		}
+		run.Note("task %d (%s): %s", d.Case, what, vrun.FatalHead(d.Detail))
 	})
 	nf, np, perCat := c05.MergePairSets(wd)
 	run.Extra("fonts_reached", nf)
